@@ -4,7 +4,7 @@ spec/Scopes.tla (link state machine, Resolve, Inline, Unser), ScopesMC.tla (univ
 exhaustive over application sequences), ScopesTrace.tla (recorded runs of a seeded random driver on
 bigger trees); harness/cmd/scopes.
 """
-import os, json, random
+import os, json, random, re
 from vlib import common
 
 SPECS = ["ScopesMC", "ScopesTrace"]
@@ -106,6 +106,23 @@ def harness_frame_first(detail):
     return False
 
 
+def crash_sig(res):
+    """(class, frame) of a dead child; for a stack overflow the frame on top is an arbitrary member of the
+    recursion cycle, so the signature names the cycle's alphabetically first SDK function instead"""
+    detail = res.get("detail", "") or ""
+    if "stack overflow" in detail:
+        funcs = []
+        for line in detail.splitlines():
+            if line.startswith("go.flow.arcalot.io/pluginsdk/") and line.rstrip().endswith(")"):
+                f = line[len("go.flow.arcalot.io/pluginsdk/"):]
+                f = re.sub(r"\[.*\]", "", f[:f.rfind("(")])
+                funcs.append(f)
+            if len(funcs) >= 24:
+                break
+        return "crash_stack_overflow", (sorted(set(funcs))[0] if funcs else "")
+    return "crash_" + res["crash"], res.get("frame", "")
+
+
 def small(case):
     """the replayable core of a case (without the bulk of states that are not needed)"""
     return case
@@ -130,12 +147,14 @@ def consume(ctx, cases, results, stats, name):
                                dict(frame=res.get("frame", "")))
             elif raw is None:
                 # died outside input evaluation: applying namespaces never recurses through links
-                ctx.violation(dict(op="apply", **{"class": "crash_" + res["crash"]}, frame=res.get("frame", "")),
+                cls, frame = crash_sig(res)
+                ctx.violation(dict(op="apply", **{"class": cls}, frame=frame),
                               dict(case=small(case), crash=res["crash"], detail=res.get("detail", "")[:3000]))
                 continue
             else:
                 stats["crash_inputs"] = stats.get("crash_inputs", 0) + 1
-                ctx.violation(dict(op="unserialize", **{"class": "crash_" + res["crash"]}, frame=res.get("frame", "")),
+                cls, frame = crash_sig(res)
+                ctx.violation(dict(op="unserialize", **{"class": cls}, frame=frame),
                               dict(case=small(case), crash=res["crash"], input=raw,
                                    note="a finite input on a self-referential object graph kills the process",
                                    detail=res.get("detail", "")[:2500]))
